@@ -93,6 +93,7 @@ typedef struct fx {
     int built;
 } fx_t;
 
+#define FXZ10 "0000000000"
 /* malformed data files with the errno class the manual gives their fault */
 static const struct { const char *name, *ext, *text; int em; } fx_malformed[] = {
     { "ts2-h-one-port", "ts",
@@ -119,6 +120,23 @@ static const struct { const char *name, *ext, *text; int em; } fx_malformed[] = 
 	"#:parameters Sri,Tri\n#:z0 50.0 +0.0j 50.0 +0.0j 50.0 +0.0j\n"
 	"1.0e+09 1 2 3 4 5 6 7 8 9 10 11 12 13 14 15 16 17 18 "
 	"1 2 3 4 5 6 7 8 9 10 11 12 13 14 15 16 17 18\n", EM_BADMSG },
+    /* numbers of 63, 64, 65, 127, 128 and 129 characters (the token buffer
+       starts at 64 and doubles), then a word where a number belongs */
+    { "ts1-long-tokens", "s1p",
+	"# Hz S RI R 50\n"
+	"1e9 0." FXZ10 FXZ10 FXZ10 FXZ10 FXZ10 FXZ10 "5"
+	" 0." FXZ10 FXZ10 FXZ10 FXZ10 FXZ10 FXZ10 "05\n"
+	"2e9 0." FXZ10 FXZ10 FXZ10 FXZ10 FXZ10 FXZ10 "005"
+	" 0." FXZ10 FXZ10 FXZ10 FXZ10 FXZ10 FXZ10
+	      FXZ10 FXZ10 FXZ10 FXZ10 FXZ10 FXZ10 "00005\n"
+	"3e9 0." FXZ10 FXZ10 FXZ10 FXZ10 FXZ10 FXZ10
+	      FXZ10 FXZ10 FXZ10 FXZ10 FXZ10 FXZ10 "000005"
+	" 0." FXZ10 FXZ10 FXZ10 FXZ10 FXZ10 FXZ10
+	      FXZ10 FXZ10 FXZ10 FXZ10 FXZ10 FXZ10 "0000005\n"
+	"4e9 bogus 1\n", EM_BADMSG },
+    { "ts2-long-keyword", "ts",
+	"[Version] 2.0\n# Hz S RI R 50\n[Number of Ports] 1\n"
+	"[" FXZ10 FXZ10 FXZ10 FXZ10 FXZ10 FXZ10 "00]\n", EM_BADMSG },
 };
 #define FX_NMALFORMED ((int)(sizeof(fx_malformed) / sizeof(fx_malformed[0])))
 
